@@ -246,3 +246,51 @@ def world_plans(draw, tier):
 
 def plans_strategy(tier):
     return world_plans(tier)
+
+
+# ---------------------------------------------------------------- C06 (history clause)
+
+@st.composite
+def dumphist_plans(draw, tier):
+    """Worlds made of dump functions and shared objects that are dumped repeatedly."""
+    nspecs = draw(st.sampled_from([1, 1, 2]))
+    specs = [draw(plans.specs('s{}'.format(i), max_classes=4)) for i in range(nspecs)]
+    setup = []
+    kinds = ['dumps', 'dumps_json'] + draw(st.sampled_from(
+        [[], ['dump'], ['dump_json'], ['dump', 'dump_json'], ['dumps']]))
+    for slot, kind in enumerate(kinds):
+        spec = specs[0] if slot < 2 or nspecs == 1 else draw(st.sampled_from(specs))
+        names = [c['name'] for c in spec['classes']]
+        setup.append({'op': 'mk', 'slot': slot, 'kind': kind, 'spec': spec['uid'],
+                      'order': list(draw(st.permutations(names)))})
+    mks = list(setup)
+    shared = {}
+    for j in range(draw(st.integers(1, 4))):
+        uid, val = draw(dump_values(specs, draw(st.sampled_from(mks))))
+        shared[j] = (uid, val)
+        setup.append({'op': 'mkval', 'vslot': j, 'spec': uid, 'val': val})
+    K = draw(st.sampled_from([1, 1, 2, 2, 3]))
+    threads = []
+    for t in range(K):
+        oplist = []
+        for i in range(draw(st.integers(2, 8 if K == 1 else 5))):
+            mk = draw(st.sampled_from(mks))
+            op = {'op': mk['kind'], 'slot': mk['slot'], 'shared': draw(st.sampled_from(sorted(shared)))}
+            if mk['kind'] in ('dumps_json', 'dump_json'):
+                op['indent'] = draw(st.sampled_from([None, None, 0, 2, 4]))
+                op['ensure_ascii'] = draw(st.booleans())
+            if mk['kind'] in ('dump', 'dump_json'):
+                op['sink'] = draw(st.sampled_from(['stringio', 'duck', 'duck_flush', 'path', 'strpath']))
+                if op['sink'] in ('path', 'strpath'):
+                    op['pre'] = draw(st.booleans())
+                    op['chunks'] = draw(st.sampled_from([None, [1], [5]]))
+            op = draw(fault_fields(op))
+            op['file'] = 't{}o{}'.format(t, i)
+            oplist.append(op)
+        threads.append(oplist)
+    knobs = {'scope': draw(st.sampled_from(['yatiml', 'core', 'core', 'all'])),
+             'granularity': draw(st.sampled_from(['line'] * 6 + ['opcode']))}
+    tape = draw(tapes(tier)) if K > 1 else {'entries': [], 'tail': None}
+    if K > 1:
+        knobs['sweep'] = draw(st.sampled_from([0, 0, 6, 12]))
+    return {'specs': specs, 'setup': setup, 'threads': threads, 'tape': tape, 'knobs': knobs}
